@@ -115,7 +115,7 @@ Definition is_let (i : nat) : bool := existsb (Nat.eqb i) [T_alias_slice; T_alia
    that starts with a binary operator token (-a;) is glued to it *)
 Definition ends_with_assignment (i : nat) : bool :=
   existsb (Nat.eqb i) [T_assign_lit; T_assign_paren; T_assign_index; T_assign_measure; T_assign_call; T_assign_cast;
-                       T_if_else_stmts; T_while_stmt; T_for_set; T_annotation].
+                       T_if_else_stmts; T_while_stmt; T_for_set; T_annotation; T_assign_unary; T_assign_not; T_cast_nested].
 Definition starts_with_operator (j : nat) : bool := Nat.eqb j T_expr_neg.
 Definition k_c16 (i j : nat) : bool :=
   is_let i || is_let j || (ends_with_assignment i && starts_with_operator j).
